@@ -44,16 +44,17 @@ type csResp struct {
 }
 
 type csBeh struct {
-	Cfg          csCfg     `json:"cfg"`
-	Batches      [][]csReq `json:"batches"`
-	ClientClosed bool      `json:"clientClosed"`
-	States       []string  `json:"states"`
-	Resps        []csResp  `json:"resps"`
-	Disp         []int     `json:"disp"`
-	SrvClosed    bool      `json:"srvClosed"`
-	Hijacked     bool      `json:"hijacked"`
-	HijRest      []csReq   `json:"hijRest"`
-	Nreq         int       `json:"nreq"`
+	Cfg           csCfg     `json:"cfg"`
+	Batches       [][]csReq `json:"batches"`
+	ClientClosed  bool      `json:"clientClosed"`
+	ClientStalled bool      `json:"clientStalled"`
+	States        []string  `json:"states"`
+	Resps         []csResp  `json:"resps"`
+	Disp          []int     `json:"disp"`
+	SrvClosed     bool      `json:"srvClosed"`
+	Hijacked      bool      `json:"hijacked"`
+	HijRest       []csReq   `json:"hijRest"`
+	Nreq          int       `json:"nreq"`
 }
 
 // csConn wraps the server side of a connection and logs what the server does with it.
@@ -154,6 +155,10 @@ func csReqBytes(r csReq, idx int) []byte {
 	if r.Kind == "bad" {
 		b.WriteString("Broken : header\r\n") // whitespace before the colon: must be rejected
 	}
+	if r.Kind == "partial" {
+		// half a head: the client then goes silent (the server's ReadTimeout must end it)
+		return b.Bytes()[:b.Len()-7]
+	}
 	b.WriteString("\r\n")
 	return b.Bytes()
 }
@@ -187,6 +192,8 @@ func csRun(b *csBeh) *csObs {
 		KeepHijackedConns:  b.Cfg.KeepHij,
 		Logger:             csNopLogger{},
 		MaxConnsPerIP:      map[bool]int{false: 0, true: 2}[b.Cfg.PerIP],
+		ReadTimeout:        csTimeout(b),
+		IdleTimeout:        csTimeout(b),
 		ConnState: func(c net.Conn, st ConnState) {
 			if _, ok := c.(*csDisturbConn); ok {
 				return // unrelated traffic generated by csDisturb
@@ -366,7 +373,19 @@ outer:
 			}
 		}
 	}
-	if !closedSeen && !hijSeen && len(o.problems) == 0 {
+	if !closedSeen && !hijSeen && len(o.problems) == 0 && b.ClientStalled {
+		// the client stays silent: whatever the server sends (an error response) and its close
+		for i := 0; i < 3 && !closedSeen; i++ {
+			switch it := readItem(); {
+			case it == "resp":
+			case it == "eof":
+				closedSeen = true
+			default:
+				o.problems = append(o.problems, "silent client: "+it)
+				i = 3
+			}
+		}
+	} else if !closedSeen && !hijSeen && len(o.problems) == 0 {
 		// after the last response: has the server closed, or is it waiting for more?
 		// The specification's expectation only selects how long we are willing to wait: EOF is a
 		// positive observation whenever it arrives; "still open" is only concluded after the
@@ -457,6 +476,22 @@ outer:
 }
 
 type csDisturbConn struct{ net.Conn }
+
+// csTimeout: scenarios in which the client goes silent need the server's timeouts
+func csTimeout(b *csBeh) time.Duration {
+	stalls := b.ClientStalled
+	for _, bt := range b.Batches {
+		for _, r := range bt {
+			if r.Kind == "partial" {
+				stalls = true
+			}
+		}
+	}
+	if stalls {
+		return 60 * time.Millisecond
+	}
+	return 0
+}
 
 // csDisturb serves one unrelated request with distinctive bytes on another connection of s.
 func csDisturb(s *Server) {
